@@ -43,6 +43,17 @@ def gen_text_blocks(rng):
         blocks.append((tr, [('raw', txt + ";")]))
     return blocks
 
+SCRIPT_PRE = "#Riff={l#?1 e} #Two={#?1 r8 #?2} STR SV={c #?1} Function FN(INT K=2){ [(K) g16] }"
+SCRIPT_TEXTS = ["INT NQ", "STR MEMO", "INT NQ; c", "#Riff(8)", "#Riff(16) #Riff(4)", "c d", "#Two({e},{g})", "ARRAY AQ;", "SV({d})", "FN(3)", "FN", "Int NQ; Str XQ;", "r4", "l8 e"]
+def gen_script_blocks(rng):
+    """blocks that declare variables without a value, call macros / string variables with arguments and call functions as statements: what one
+    track's block leaves behind in the interpreter (an empty value stack, a pending flag) must not reach the next track's block"""
+    nums = rng.sample([0, 1, 2, 3, 5, 9], rng.choice([2, 2, 3]))
+    blocks = []
+    for _ in range(rng.randrange(len(nums), len(nums) * 3)):
+        blocks.append((rng.choice(nums), [('raw', " ".join(rng.choice(SCRIPT_TEXTS) for _ in range(rng.randrange(1, 4))) + ";")]))
+    return blocks
+
 def permute(rng, blocks):
     """shuffle keeping the relative order of blocks of the same track"""
     order = [b[0] for b in blocks]
@@ -74,6 +85,11 @@ def streams(tier, rng, P, only=None, cases=None):
             p1 = to_prog(blocks); p2 = to_prog(permute(rng, blocks))
             s1 = mml.pr(p1); s2 = mml.pr(p2)
             cs.append(dict(req="compile2 %s %s" % (hx(s1), hx(s2)), src=s1, src2=s2, show=s1[:300], sexp=None, ntr=len(set(b[0] for b in blocks)), key="pt%d" % i))
+        for i in range(n // 4):
+            blocks = gen_script_blocks(rng)
+            p1 = to_prog(blocks); p2 = to_prog(permute(rng, blocks))
+            s1 = SCRIPT_PRE + " " + mml.pr(p1); s2 = SCRIPT_PRE + " " + mml.pr(p2)
+            cs.append(dict(req="compile2 %s %s" % (hx(s1), hx(s2)), src=s1, src2=s2, show=s1[:300], sexp=None, ntr=len(set(b[0] for b in blocks)), key="ps%d" % i))
         # a track selected from inside a user function (or a macro) stays selected after the call: the commands that follow are addressed to it
         for j, (a, b) in enumerate([("Function SEL(INT T){ TR=T } SEL(3) c SEL(1) d SEL(3) e", "TR=3 c TR=1 d TR=3 e"),
                                     ("Function HEAD(){ TR=2 l8 cd } TR=1 c HEAD() e TrackSync TR=1 g", "TR=1 c TR=2 l8 cd e TrackSync TR=1 g"),
@@ -115,6 +131,12 @@ def streams(tier, rng, P, only=None, cases=None):
             p1 = to_prog(blocks); p2 = to_prog([b for b in blocks if b[0] == k])
             s1_, s2_ = mml.pr(p1), mml.pr(p2)
             cs.append(dict(req="run2 %s %s" % (hx(s1_), hx(s2_)), src=s1_, src2=s2_, show=s1_[:300], k=k, ntr=len(set(b[0] for b in blocks)), key="at%d" % i))
+        for i in range(n // 4):
+            blocks = gen_script_blocks(rng)
+            k = rng.choice(sorted(set(b[0] for b in blocks)))
+            p1 = to_prog(blocks); p2 = to_prog([b for b in blocks if b[0] == k])
+            s1_, s2_ = SCRIPT_PRE + " " + mml.pr(p1), SCRIPT_PRE + " " + mml.pr(p2)
+            cs.append(dict(req="run2 %s %s" % (hx(s1_), hx(s2_)), src=s1_, src2=s2_, show=s1_[:300], k=k, ntr=len(set(b[0] for b in blocks)), key="as%d" % i))
         for j, (a, b, k) in enumerate([("TR=1 l4 c TR=2 l4 d TimeSignature=3,4 e", "TR=2 l4 d TimeSignature=3,4 e", 2), ("TR(1) Tempo(90) c TR(0) d", "TR(1) Tempo(90) c", 1),
                                        # the same song-level command written on two tracks at the same tick is written on both
                                        ("TR=1 Tempo=100 c TR=2 Tempo=100 e", "TR=2 Tempo=100 e", 2), ("TR=2 Tempo=100 e TR=1 Tempo=100 c", "TR=1 Tempo=100 c", 1),
